@@ -382,7 +382,8 @@ def run_check(prop, tier, seed):
             lines.append('KNOWN-FINDING: property=%s %s' % (prop, k['what']))
 
     wall = time.time() - t0
-    if total_obl == 0 and not machinery_errors and not any(f['fallback'] for f in fn_records):
+    if total_obl == 0 and not machinery_errors and not any(f['fallback'] for f in fn_records) and \
+            not (contracts.LEVELS.get(prop) == 'exploration' and (extra.get('exploration') or {}).get('evaluations')):
         machinery_errors.append('zero obligations generated for %s' % prop)
 
     evidence = {
